@@ -611,7 +611,13 @@ func (r *stateResolverV2) calculateFullAuthChainAndConflictedSubgraph(
 			conflictedSubgraphEventIDs := append(slices.Clone(curr.visiting), curr.pdu.EventID())
 			fmt.Printf("found conflicted subgraph %v\n", conflictedSubgraphEventIDs)
 			for _, eventID := range conflictedSubgraphEventIDs {
-				conflictedSubgraph.Insert(r.authEventMap[eventID])
+				// the path starts at a state event, which need not be among
+				// the supplied auth events
+				if event, ok := r.authEventMap[eventID]; ok {
+					conflictedSubgraph.Insert(event)
+				} else if event, ok = r.conflictedEventMap[eventID]; ok {
+					conflictedSubgraph.Insert(event)
+				}
 			}
 		}
 
